@@ -278,7 +278,7 @@ func (g *c3gen) try(body, catch, fin *c3node, named bool) *c3node {
 func (g *c3gen) call(body *c3node) *c3node { return &c3node{kind: c3Call, kids: []*c3node{body}} }
 func (g *c3gen) loop(body *c3node) *c3node { return &c3node{kind: c3Loop, kids: []*c3node{body}} }
 
-const c3NumFixed = 12
+const c3NumFixed = 15
 
 func (g *c3gen) fixed(k int) *c3node {
 	switch k {
@@ -302,6 +302,12 @@ func (g *c3gen) fixed(k int) *c3node {
 		return g.loop(g.wrap(g.try(g.exitLeaf(true), nil, g.exitLeaf(true), false)))
 	case 10: // break/continue out of a catch block with a finally, in a loop, after a completed try
 		return g.loop(&c3node{kind: c3Seq, kids: []*c3node{g.try(g.part(0, nil, true), nil, g.part(0, nil, true), false), g.try(g.exitLeaf(true), g.exitLeaf(true), g.part(0, nil, true), true)}})
+	case 12: // a callee throws while its caller runs the finally block of a try nested in another live try of the same function
+		return g.call(g.wrap(g.try(g.wrap(g.try(g.part(0, nil, false), nil, g.wrap(g.call(g.exitLeaf(false))), false)), g.part(0, nil, false), g.part(0, nil, false), true)))
+	case 13: // the same at the top level, with an exit pending in the inner try body and an exit in the outer catch
+		return g.try(g.wrap(g.try(g.exitLeaf(false), nil, g.wrap(g.call(g.exitLeaf(false))), false)), g.exitLeaf(false), g.part(0, nil, false), true)
+	case 14: // two levels of calls between the thrower and the nested finally
+		return g.try(g.wrap(g.try(g.part(0, nil, false), g.part(0, nil, false), g.wrap(g.call(g.wrap(g.call(g.exitLeaf(false))))), true)), nil, g.exitLeaf(false), false)
 	case 11: // return inside a finally nested in another try/finally in a loop
 		return g.call(g.wrap(g.loop(g.wrap(g.try(g.wrap(g.try(g.exitLeaf(true), nil, g.exitLeaf(true), false)), nil, g.exitLeaf(true), false)))))
 	}
